@@ -633,6 +633,8 @@ class NumFunc:
         fn = self.src.find_def(self.spec['func'])
         hits = [n for n in ast.walk(fn) if isinstance(n, ast.Assign) and len(n.targets) == 1
                 and self.dotted(n.targets[0]) == self.spec['var']]
+        if 'pick' in self.spec and len(hits) > self.spec['pick']:
+            hits = [sorted(hits, key=lambda n: n.lineno)[self.spec['pick']]]
         if len(hits) != 1:
             raise TranslateError(f"{self.src.relpath}: expected exactly one assignment to "
                                  f"{self.spec['var']} in {self.spec['func']}, found {len(hits)}")
